@@ -542,6 +542,39 @@ def r03_7(ctx: Ctx):
     ctx.ok(rid, sd.short, 'no recursion among the functions reachable from the solve driver', sd.loc())
 
 
+def r03_7_failed_iteration_leaves_loop(ctx: Ctx):
+    """Ranking argument, exceptional part: an iteration that ends with an exception does not advance the iteration
+    counter, so the loop may not go round again after it - every path on which the objective raises and is caught
+    must reach the end of the solve driver without another global-search evaluation."""
+    rid = 'R03.7'
+    roles = C.roles_of(ctx)
+    try:
+        sd, tw = roles.solve_driver, roles.task_wrapper
+    except RoleMissing as e:
+        ctx.fail(rid, f'role {e.role}', 'iOpt/', str(e), key=f'{rid}::role::{e.role}')
+        return
+    from .c16 import explore_within_budget
+    pcs = {roles.fq(p) for p in roles.problem_calcs}
+    n = 0
+    for p in explore_within_budget(ctx, sd, rid):
+        fails = [i for i, e in enumerate(p.events) if e.kind == 'raise' and e.d.get('implicit')]
+        if not fails or p.outcome == 'raise':
+            continue          # no failure, or the exception leaves Solve (it terminates by raising)
+        n += 1
+        i0 = fails[0]
+        later = [e for e in p.events[i0:] if e.kind == 'call' and e.func is tw and
+                 any(isinstance(c, FuncInfo) and roles.fq(c) in pcs for c in e.d['callees'])]
+        catches = [e for e in p.events[i0:] if e.kind == 'catch']
+        where = sd.loc(catches[0].node) if catches else sd.loc()
+        ctx.check(not later, rid, sd.short, where,
+                  'an iteration that failed is not followed by another one (the loop is left)',
+                  'after an exception in an iteration the loop of the solve driver goes round again: the failed '
+                  'iteration advanced neither the iteration counter nor the accuracy, so nothing bounds the number of '
+                  'further objective evaluations (Solve need not terminate and the budget can be exceeded)',
+                  key=f'{rid}::{sd.short}::failed-iteration-continues')
+    ctx.floor(rid, 'caught-failure paths of the solve driver', n, 1)
+
+
 def r03_8(ctx: Ctx):
     """The thresholds the stop predicate compares with are the caller's: nothing in the library rewrites
     SolverParameters.eps / itersLimit (the stop routine reads them through the shared parameters object, so a
@@ -593,5 +626,7 @@ def check(ctx: Ctx):
                     ('R03.5', r03_5), ('R03.6', r03_6), ('R03.7', r03_7), ('R03.8', r03_8)):
         if C.want(ctx, rid):
             fn(ctx)
+    if C.want(ctx, 'R03.7'):
+        r03_7_failed_iteration_leaves_loop(ctx)
     ctx.assume('the user objective, scipy.optimize.minimize and DEPQ operations terminate')
     ctx.assume('iteration over the search data is finite (acyclic links: C06)')
